@@ -27,7 +27,71 @@ type c05Case struct {
 	texts      [][]byte
 }
 
+// c05Wide: many captures, many `with` items, many transforms - counts on both sides of 10, 16, 32, 64, 100, 128, 256.
+var c05Widths = []int{9, 10, 11, 15, 16, 17, 31, 32, 33, 63, 64, 65, 99, 100, 101, 127, 128, 129, 255, 256, 257, 300}
+
+func c05Wide(seed uint64, i int) *c05Case {
+	rng := gen.Derive(seed, "C05wide", i)
+	K := c05Widths[rng.Intn(13)] // captures: up to 101
+	N := c05Widths[rng.Intn(len(c05Widths))]
+	T := []int{0, 3, 9, 10, 11, 17, 33}[rng.Intn(7)]
+	if T > K {
+		T = K
+	}
+	cs := &c05Case{trs: map[string]*c05Transform{}, loopNames: map[string]bool{}}
+	var body []gen.Node
+	caps := make([]string, K)
+	for k := 0; k < K; k++ {
+		caps[k] = fmt.Sprintf("c%d", k+1)
+		body = append(body, gen.Capture{Name: caps[k], Body: gen.Seq{Items: []gen.Node{gen.Class{Kind: "letter"}}}})
+	}
+	trSrc := ""
+	for k := 0; k < T; k++ {
+		c := caps[rng.Intn(K)]
+		ss := []proc.Stmt{proc.SReturn{X: proc.EBin{Op: "+", L: proc.EBin{Op: "+", L: proc.EStr{V: fmt.Sprintf("<%d:", k+1)}, R: proc.EVar{Name: c}}, R: proc.EVar{Name: "matchLength"}}}}
+		tr := &c05Transform{name: fmt.Sprintf("t%d", k+1), stmts: ss}
+		tr.src = "set " + tr.name + " to transform " + proc.RenderStmts(ss, false) + " end\n"
+		trSrc += tr.src
+		cs.trs[tr.name] = tr
+	}
+	for k := 0; k < N; k++ {
+		switch x := rng.Intn(10); {
+		case x < 5:
+			cs.with = append(cs.with, gen.WithItem{Kind: "var", S: caps[rng.Intn(K)]})
+		case x == 5:
+			cs.with = append(cs.with, gen.WithItem{Kind: "str", S: []string{"-", "", "%d", fmt.Sprint(k)}[rng.Intn(4)]})
+		case x == 6:
+			cs.with = append(cs.with, gen.WithItem{Kind: "var", S: gen.BuiltinWith[rng.Intn(len(gen.BuiltinWith))]})
+		case x == 7:
+			cs.with = append(cs.with, gen.WithItem{Kind: "var", S: fmt.Sprintf("c%d", K+1+rng.Intn(3))}) // undefined
+		default:
+			if T > 0 {
+				cs.with = append(cs.with, gen.WithItem{Kind: "var", S: fmt.Sprintf("t%d", 1+rng.Intn(T))})
+			} else {
+				cs.with = append(cs.with, gen.WithItem{Kind: "var", S: caps[K-1]})
+			}
+		}
+	}
+	p := &gen.Program{Commands: []gen.Command{{Body: body}}}
+	cs.find = gen.RenderProgram(p)
+	rp := &gen.Program{Commands: []gen.Command{{Body: body, Replace: true, With: cs.with}}}
+	cs.repl = trSrc + gen.RenderProgram(rp)
+	letters := "abcxyzABQ"
+	var text []byte
+	for m := 0; m < 3; m++ {
+		for k := 0; k < K+m; k++ { // the second and third block leave one / two letters over
+			text = append(text, letters[rng.Intn(len(letters))])
+		}
+		text = append(text, " \n;"[m])
+	}
+	cs.texts = [][]byte{text}
+	return cs
+}
+
 func c05Gen(seed uint64, i int) *c05Case {
+	if i%25 == 7 {
+		return c05Wide(seed, i)
+	}
 	rng := gen.Derive(seed, "C05", i)
 	sc := gen.DefaultScope
 	sc.CapHeavy = true
@@ -227,7 +291,7 @@ func C05(r *drv.Run) {
 	if !quick(r) {
 		n = 80000
 	}
-	r.Rule = "replace commands whose `with` list mixes literal strings, captures whose value differs per match, every built-in (value, matchNumber, startOffset, endOffset, lineNumber, columnNumber, totalMatches, filename), undefined names, named-loop (map valued) names and 0..2 generated transforms reading match, matchLength, captures and the match's built-ins; texts derived from the body with >= 2 matches where possible; a third of the cases under an amount clause (skip / take / top / last). Oracle: (a) the replace run equals the find run of the same body in every field but Replacement; (b) each Replacement equals the concatenation computed from the find-run's match by the harness (transforms through the process-language reference interpreter). Non-trivial = a match whose expected replacement is non-empty and that carries >= 1 variable; distinct by (program, text)."
+	r.Rule = "replace commands whose `with` list mixes literal strings, captures whose value differs per match, every built-in (value, matchNumber, startOffset, endOffset, lineNumber, columnNumber, totalMatches, filename), undefined names, named-loop (map valued) names and 0..2 generated transforms reading match, matchLength, captures and the match's built-ins; texts derived from the body with >= 2 matches where possible; a third of the cases under an amount clause (skip / take / top / last); one case in 25 is wide: 9..101 single-letter captures in a row, a with-list of 9..300 items (captures, strings, built-ins, undefined names, transforms), 0..33 transforms each reading one capture, counts drawn from both sides of 10, 16, 32, 64, 100, 128, 256. Oracle: (a) the replace run equals the find run of the same body in every field but Replacement; (b) each Replacement equals the concatenation computed from the find-run's match by the harness (transforms through the process-language reference interpreter). Non-trivial = a match whose expected replacement is non-empty and that carries >= 1 variable; distinct by (program, text)."
 	r.Assumptions = []string{
 		"an absent Replacement and the empty string are the same replacement (a `with` list that names nothing)",
 		"transforms whose evaluation divides by zero are not judged (known finding K1); matchNumber is not used inside transforms",
@@ -317,6 +381,9 @@ func C05(r *drv.Run) {
 			if len(cs.trs) > 0 {
 				r.Count("programs_with_transforms", 1)
 			}
+			if len(cs.with) >= 100 {
+				r.Count("with_lists_of_100_or_more_items", 1)
+			}
 			if i%101 == 0 {
 				r.Sample(map[string]any{"program": cs.repl, "text": string(cs.texts[len(cs.texts)-1])})
 			}
@@ -324,7 +391,7 @@ func C05(r *drv.Run) {
 	})
 	if r.NViolations() == 0 {
 		expensiveFloor(r)
-		for _, k := range []string{"replacements_checked", "replacement_differs_between_matches", "programs_with_transforms"} {
+		for _, k := range []string{"replacements_checked", "replacement_differs_between_matches", "programs_with_transforms", "with_lists_of_100_or_more_items"} {
 			if r.Counter(k) == 0 {
 				r.Inconclusive("coverage floor: " + k + " = 0")
 			}
